@@ -111,7 +111,7 @@ static void report_calls(FILE *rep, const char *id, const char *argspec, int orp
 /* ---- histories: a sequence of steps carried out along one line of descent
  *   hist <id> <plain|ns> <step;step;...>      n:<namehex>  prctl(PR_SET_NAME)      f  fork, go on in the child
  *                                             F:<pid>      fork with that pid (clone3 set_tid; mode ns only)
- *                                             c:<arghex>   snapshot + filter call in the current process
+ *                                             c:<arghex>   snapshot + filter call in the current process      z  close(0)
  *        -> ok <verdict of every c step, in order>      side records <id>#<k> (k-th call)
  * mode ns: the steps run below the init process of a fresh pid namespace with its own /proc (needs root; "ok skip" otherwise). */
 #include <sched.h>
@@ -132,6 +132,7 @@ static void hist_steps(FILE *rep, const char *id, char *steps) {
     char *save = 0; int k = 0;
     for (char *st = strtok_r(steps, ";", &save); st; st = strtok_r(0, ";", &save)) {
         if (st[0] == 'n' && st[1] == ':') { vbytes nm = parse_bytes(st + 2); prctl(PR_SET_NAME, nm.p); }
+        else if (st[0] == 'z') close(0);                 /* the process (and its descendants) go on without descriptor 0 */
         else if (st[0] == 'c' && st[1] == ':') { char key[128]; snprintf(key, sizeof key, "%s#%d", id, k++); report_calls(rep, key, st + 2, 0); }
         else if (st[0] == 'f' || st[0] == 'F') {
             fflush(rep);
